@@ -31,6 +31,7 @@ import numpy as np
 
 from vf import core
 
+EXTRA_TARGETS = ('OdlModel.Model.ProxFloat', 'OdlModel.Model.Call')   # imported by the driver
 RULE = ('zoo: class x constructor variant x derived operator (self, adjoint, derivative, inverse, '
         'gradient, proximal, convex_conj) x input draw x prefill {nan, inf, garbage}; dispatch: '
         'signature class x return behaviour x raw x functional x x-kind x out-kind; tree: random '
